@@ -315,6 +315,11 @@ func runCheck(id, tier string, seed int, replayPath, only string, verbose, noRep
 			}
 			ro := nativeReplay(spec, prog, es, file, spec.Entries)
 			replays++
+			for retry := 0; retry < 2 && !replayMatches(v, ro); retry++ {
+				// a replay runs real goroutines, timers and a real file system: retry before
+				// declaring a mismatch
+				ro = nativeReplay(spec, prog, es, file, spec.Entries)
+			}
 			if !replayMatches(v, ro) {
 				fmt.Printf("  ENGINE-MISMATCH entry=%s assert=%s finding=%s native=%q msg=%q err=%q file=%s\n", es.Name, v.Assert, v.Finding, ro.Failed, ro.Msg, ro.Err, file)
 				if verbose || ro.Err != "" {
